@@ -70,6 +70,12 @@ def judge(text, meta, col):
     r = meta.get("ref") or analyze(text)
     src = meta["src"]
     if src == "layout":
+        if r.lex_unspec:
+            # the token sequence itself is not pinned down (e.g. 'text:' that does
+            # not start a well-formed multi-line block): "the same script in
+            # another layout" is not defined for such input
+            col.notes["layout-skipped(lexically-unspecified)"] += 1
+            return
         o0 = impl.parse_outcome(text)
         for v in meta["variants"]:
             rv = analyze(v)
@@ -124,7 +130,7 @@ def replay(case):
     if "canonical" in case:
         o0 = impl.parse_outcome(case["canonical"])
         r0 = analyze(case["canonical"])
-        if o0.exc is None and o.exc is None and o0.verdict != o.verdict:
+        if not r0.lex_unspec and o0.exc is None and o.exc is None and o0.verdict != o.verdict:
             out.append(("layout-sensitive|ref=%s|canonical=%s|variant=%s" % (r0.verdict, o0.verdict, o.verdict),
                         {"canonical": o0.summary(), "variant": o.summary()}))
     return out
